@@ -591,6 +591,15 @@ func (x *Exec) runLoop(spec *LoopSpec, ord int, label string, st *State, cond fu
 	for _, inv := range spec.Inv {
 		x.assume(hst, x.evalSpecBool(inv, sc, hst))
 	}
+	for _, g := range spec.Head {
+		x.dry++
+		v := x.evalSpecVal(g, sc, hst)
+		x.dry--
+		if x.ghosts == nil {
+			x.ghosts = map[string]*Value{}
+		}
+		x.ghosts[g.Label] = v
+	}
 	c := x.nameBool(cond(hst))
 	bst := hst.clone()
 	bst.guard = x.nameBool(And(hst.guard, c))
